@@ -81,6 +81,11 @@ func main() {
 	out["native_assemble_instructions"] = len(ins)
 	out["native_assemble_nil_program"] = ins == nil
 	out["native_assemble_error"] = errStr(err)
+	// a policy whose groups list nothing: on a target without tables this must not compile either
+	empty := &seccomp.Policy{DefaultAction: seccomp.ActionAllow, Syscalls: []seccomp.SyscallGroup{{Action: seccomp.ActionErrno}}}
+	eins, eerr := empty.Assemble()
+	out["native_empty_policy_instructions"] = len(eins)
+	out["native_empty_policy_error"] = errStr(eerr)
 	_, gerr := arch.GetInfo("")
 	out["getinfo_default_error"] = errStr(gerr)
 
